@@ -263,6 +263,10 @@ def run_check(mod, tier, seed, chunk=None, gate_n=48):
     return finalize(mod, tier, seed, agg, capped, time.time() - t0)
 
 
+def _safe(s):
+    return str(s).encode('utf-8', 'backslashreplace').decode('utf-8')
+
+
 def finalize(mod, tier, seed, agg, capped, wall):
     pid = mod.ID
     if agg.harness:
@@ -292,7 +296,7 @@ def finalize(mod, tier, seed, agg, capped, wall):
         path = write_replay(pid, v)
         print('VIOLATION property=%s replay=%s' % (pid, path))
         print('  clause=%s sig=%s' % (v.get('clause'), canon(v.get('sig'))))
-        d = str(v.get('detail') or '')
+        d = _safe(v.get('detail') or '')
         if d:
             print('  ' + d[:1500].replace('\n', '\n  '))
         rc = 1
@@ -368,7 +372,7 @@ def replay(mod, path):
             continue
         print('VIOLATION property=%s replay=%s' % (mod.ID, path))
         print('  clause=%s sig=%s' % (v.get('clause'), canon(v.get('sig'))))
-        print('  ' + str(v.get('detail') or '')[:3000].replace('\n', '\n  '))
+        print('  ' + _safe(v.get('detail') or '')[:3000].replace('\n', '\n  '))
         rc = 1
     if not vs:
         print('replay of %s: property held' % path)
